@@ -3,8 +3,7 @@ CONSTANTS
   Threads = {1, 2}
   Names = {"b", "n"}
   Cons = {"n"}
-  Local = FALSE
+  Local = TRUE
   Variant = "locked"
 INVARIANT P_AsAlone
 INVARIANT P_LockFree
-PROPERTY Termination
